@@ -37,7 +37,7 @@ def case_strategy():
         elif then == 'rotate': then = ['rotate', draw(st.sampled_from([30.0, 90.0, -45.0]))]
         elif then: then = [then]
         setters = draw(st.lists(st.sampled_from([0, 1, 2]), min_size=1, max_size=2)) if draw(st.integers(0, 3)) == 0 else None
-        return {'rc': rc, 'setters': setters, 'blockmap': draw(st.sampled_from([None, None, 'all', 'some', 'swap', 'cycle', 'chain'])), 'then': then}
+        return {'rc': rc, 'setters': setters, 'atm_named': draw(st.integers(1, 50)) if draw(st.integers(0, 2)) == 0 else None, 'blockmap': draw(st.sampled_from([None, None, 'all', 'some', 'swap', 'cycle', 'chain'])), 'then': then}
     return s()
 
 
@@ -64,6 +64,11 @@ def run_case(case, R):
     if bad:
         for b in bad: R.exclude('input:' + b)
         return
+    if case.get('atm_named') and g.atmosphere_type == 0 and g.atmosphere_column_name not in g.column:
+        # a column that happens to carry the name the library reserves for the column part of the single atmosphere block
+        # ('ATM', ' 0', '  0'): its blocks ('ATM 1', ...) are ordinary blocks
+        R.label('column-named-like-the-atmosphere-column')
+        with R.lib('rename_column'): g.rename_column(g.columnlist[case['atm_named'] % g.num_columns].name, g.atmosphere_column_name)
     for v in case.get('setters') or []:
         # the atmosphere type changed through its property on the finished geometry (the last value counts)
         R.label('setter:atmosphere_type:%d->%d' % (g.atmosphere_type, v))
